@@ -4,6 +4,7 @@
 From Coq Require Import Lia.
 From RM Require Import C08.Model C08.Proofs C03.Model C03.Proofs C03.ArgModel C03.ArgProofs C03.Compose.
 From RM Require Import C03.FetchModel C03.FetchProofs.
+From RM Require Gen.C03Sites C03.SitesTie.
 From RM Require C11.Model C11.Proofs2 C11.Proofs5.
 From RM Require C05.Model C05.Proofs.
 Open Scope Z_scope.
@@ -295,3 +296,32 @@ Proof.
   intros look fuel maxd acc H. apply maxdepth_needs_depth_many_steps. lia.
 Qed.
 Print Assumptions c03_inline_maxdepth_refuted.
+
+(* ---- PPC / PPC64 / SPARC / unknown-CPU dumps: get_caller_frame's dispatch has no walker for them, so the walk is the
+   context frame alone (fuel 1), within the frame bound for any stack — whatever a per-architecture walker would do *)
+Theorem c03_no_unwinder_single_frame : forall (F : Type) c (w : F -> option F) (cur : F) (stack_bytes : nat),
+  has_unwinder c = false ->
+  walk_any 1 (get_caller_dispatch c w) cur = Ret [cur] /\ (length [cur] <= stack_bytes + 2)%nat.
+Proof. exact @no_unwinder_single_frame. Qed.
+Print Assumptions c03_no_unwinder_single_frame.
+
+(* ---- the round-4 sites in the shape of c03_process_total_partial: neither Panic nor OutOfFuel *)
+Theorem c03_round4_sites_total :
+  (forall p rs ip tag, wf_regions rs -> 0 <= ip < two64 -> fetch_instruction_bytes p rs ip <> Panic tag) /\
+  (forall p recs look, look_sound recs look -> Z.of_nat (length recs) + 2 < two32 ->
+     (forall tag, inline_loop p (S (length recs)) look 1 [] <> Panic tag) /\
+     inline_loop p (S (length recs)) look 1 [] <> OutOfFuel).
+Proof. exact round4_sites_total. Qed.
+Print Assumptions c03_round4_sites_total.
+
+(* ---- tie to the source (translate/c03_sites.py -> Gen/C03Sites.v, regenerated on every run): the model's table of
+   CPUs with an unwinder is the set of `=> <arch>::get_caller_frame` arms of the dispatch, the guard-page limit and the
+   first inline level are the source's constants *)
+Theorem c03_sites_match_source :
+  (forall c, has_unwinder (C03.SitesTie.of_gen c) = C03.SitesTie.in_arms c) /\
+  GUARD_MEMORY_MAX_SIZE = Gen.C03Sites.gen_guard_memory_max_size /\
+  Gen.C03Sites.gen_inline_first_depth = 1.
+Proof.
+  exact (conj C03.SitesTie.unwinder_table_agrees (conj C03.SitesTie.guard_const_agrees C03.SitesTie.inline_first_depth_agrees)).
+Qed.
+Print Assumptions c03_sites_match_source.
